@@ -18,5 +18,5 @@ echo "== 3. demo WITHOUT the change (must pass)"
 (cd $WT && git apply -R $D/patch.diff && go test -vet=off -count=1 $PKG 2>&1 | tail -3; git apply $D/patch.diff)
 echo "== 4. property check against the change applied to /repo"
 if [ -n "$(git -C /repo status --porcelain)" ]; then echo "/repo not clean, skipping"; exit 3; fi
-git -C /repo apply $D/patch.diff && (cd /verif && ./check $PROP quick; echo "check-exit=$?") ; git -C /repo checkout -- . 
+git -C /repo apply $D/patch.diff && (cd /verif && GOVC_NO_EVIDENCE=1 ./check $PROP quick; echo "check-exit=$?") ; git -C /repo checkout -- . 
 rm -rf /tmp/seedcheck-gocache
